@@ -11,11 +11,11 @@ import RV.C04.QueryLemmas
   Statements first (full strength), then what is proved:
     * `pushdown_partial`, `eval_correct_partial`, `ask_correct_partial`, `construct_correct_partial`
       for the operators named by `Alg.inFragment` (BGP incl. rdflib's re-ordering, lazy and non-lazy Join, Union,
-      Filter / Extend with EXISTS-free expressions, Values, Minus, Graph, sub-select) under `Alg.safe`;
+      Filter / Extend / LeftJoin with EXISTS-free expressions, Values, Minus, Graph, sub-select — every operator of
+      the property; the only restriction is "no EXISTS / NOT EXISTS in an expression") under `Alg.safe`;
     * `*_witness`: the three ways rdflib's `_vars` annotation is inexact (known findings C04-K1..K3) falsify the
       unconditional statement on concrete queries — which is why `Alg.safe` is a hypothesis;
-    * the remaining operators (LeftJoin, EXISTS) are covered by `Statement_pushdown`
-      only as a statement; the harness checks model ≡ implementation ≡ specification on them on every run.
+    * queries with EXISTS / NOT EXISTS are covered by `Statement_pushdown` only as a statement; the harness checks model ≡ implementation ≡ specification on them on every run.
 -/
 namespace RV.C04
 open Spec Model
